@@ -1,0 +1,62 @@
+//go:build verif
+
+package coordinator
+
+import (
+	"sort"
+	"time"
+
+	"github.com/openGemini/openGemini/lib/config"
+	meta2 "github.com/openGemini/openGemini/lib/util/lifted/influx/meta"
+	proto2 "github.com/openGemini/openGemini/lib/util/lifted/influx/meta/proto"
+	"github.com/openGemini/openGemini/lib/util/lifted/vm/protoparser/influx"
+)
+
+// verifC06Meta is the meta client of the C06 verification harness: it only keeps the schema of one measurement.
+type verifC06Meta struct {
+	PWMetaClient
+	mi *meta2.MeasurementInfo
+}
+
+func (m *verifC06Meta) UpdateSchema(database string, retentionPolicy string, mst string, fieldToCreate []*proto2.FieldSchema) error {
+	for _, item := range fieldToCreate {
+		m.mi.Schema.SetTyp(item.GetFieldName(), item.GetFieldType())
+	}
+	return nil
+}
+
+// VerifC06Writer lets the C06 verification harness run, row by row, the per-row steps PointsWriter.routeAndMapOriginRows
+// applies before a row is routed to a shard: stable sort of the fields, fixFields, and the schema check / schema update of
+// the measurement (writeHelper.updateSchemaIfNeeded), with the same decision about partial errors and dropped rows.
+// Thin wrapper, no behaviour of its own.
+type VerifC06Writer struct {
+	pw *PointsWriter
+	wh *writeHelper
+	mi *meta2.MeasurementInfo
+	fs []*proto2.FieldSchema
+}
+
+func VerifC06NewWriter(mst string) *VerifC06Writer {
+	mi := meta2.NewMeasurementInfo(mst, influx.GetOriginMstName(mst), config.TSSTORE, 0)
+	pw := NewPointsWriter(time.Second)
+	pw.MetaClient = &verifC06Meta{mi: mi}
+	return &VerifC06Writer{pw: pw, wh: newWriteHelper(pw), mi: mi}
+}
+
+// Row returns whether the row is dropped and the (partial) error that is reported for it; fatal reports an error that
+// routeAndMapOriginRows returns for the whole request instead of recording it as a partial one.
+func (v *VerifC06Writer) Row(r *influx.Row) (dropped bool, fatal bool, err error) {
+	sort.Stable(&r.Fields)
+	var pErr error
+	if r.Fields, pErr = fixFields(r.Fields); pErr != nil {
+		return true, false, pErr
+	}
+	var isDropRow bool
+	if v.fs, isDropRow, err = v.wh.updateSchemaIfNeeded("db0", "rp0", r, v.mi, v.mi.OriginName(), v.fs[:0]); err != nil {
+		if v.pw.isPartialErr(err) {
+			return isDropRow, false, err
+		}
+		return true, true, err
+	}
+	return false, false, nil
+}
